@@ -72,6 +72,10 @@ class _SpProxy(object):
         spec = sim.specs.get(uid, {})
         if spec.get('poison') == 'popen':
             sim.hits.add('poison:popen')
+            if spec.get('cancel') == 'at_poison' and \
+                    uid not in sim.cancel_requested:
+                sim.cancel([uid], wait=True)
+                sim.hits.add('cancel:at_poison')
             raise Poison('spawn failed for %s' % uid)
         if spec.get('cancel') == 'in_spawn_before':
             sim.cancel([uid], wait=True)
@@ -199,6 +203,10 @@ def gen_case(rng, spawner='POPEN'):
         r = rng.random()
         if r < 0.14:
             spec['poison'] = rng.choice(POISON_POINTS)
+            if rng.random() < 0.35:
+                # a cancel request for the task is delivered right before the
+                # launch step fails: it is pending when the error is handled
+                spec['cancel'] = 'at_poison'
         elif r < 0.60 or ending == 'long':
             k = rng.choice(['before_intake', 'in_spawn_before',
                             'in_spawn_after', 'running', 'running',
@@ -370,6 +378,10 @@ class ExecSim(object):
                 uid = uid_of(*a, **k)
                 if sim.specs.get(uid, {}).get('poison') == point:
                     sim.hits.add('poison:' + point)
+                    if sim.specs[uid].get('cancel') == 'at_poison' and \
+                            uid not in sim.cancel_requested:
+                        sim.cancel([uid], wait=True)
+                        sim.hits.add('cancel:at_poison')
                     raise Poison('%s failed for %s' % (point, uid))
                 return orig(*a, **k)
             setattr(obj, name, wrapped)
